@@ -28,3 +28,32 @@ func Verif_C22_affordable() {
 	verifAssert(fee.Cmp(avail) <= 0, "fee with the estimated gas limit <= balance - value")
 	verifReach("estimated")
 }
+
+var verifC22Prices = []struct {
+	price    uint64
+	modifier float64
+}{{1000000001, 0.01}, {1000000000, 0.01}, {7, 0.5}, {5, 1}, {1<<40 + 3, 0.013}, {1<<61 + 1, 0.25}, {333, 0.01}}
+
+// Same claim with the gas price and the processing price drawn from concrete pairs (price, modifier), so that every product and quotient is by a constant and the solver decides the
+// rounding exactly; balance, value and the fee configuration stay symbolic.
+func Verif_C22_affordableConcretePrices() {
+	ed := verifEconomics()
+	pair := verifC22Prices[verifChoice("pricePair", len(verifC22Prices))]
+	ed.gasPriceModifier = pair.modifier // concrete: the real GasPriceForProcessing runs on concrete floats
+	value := verifBig("value")
+	balance := verifBig("balance")
+	verifAssume(value.Sign() >= 0 && balance.Sign() >= 0)
+	verifAssume(balance.Cmp(big.NewInt(0).Lsh(big.NewInt(1), 100)) < 0)
+	tx := &transaction.Transaction{GasPrice: pair.price, GasLimit: verifU64("gasLimit"), Value: value, Data: make([]byte, verifChoice("dataLen", 2))}
+	verifAssume(!ed.flagGasPriceModifier.IsSet() || ed.GasPriceForProcessing(tx) >= 1)
+	limit, err := ed.ComputeGasLimitBasedOnBalance(tx, balance)
+	if err != nil {
+		verifReach("insufficient funds")
+		return
+	}
+	tx2 := &transaction.Transaction{GasPrice: tx.GasPrice, GasLimit: limit, Value: value, Data: tx.Data}
+	fee := ed.ComputeTxFee(tx2)
+	avail := big.NewInt(0).Sub(balance, value)
+	verifAssert(fee.Cmp(avail) <= 0, "fee with the estimated gas limit <= balance - value")
+	verifReach("estimated")
+}
